@@ -46,6 +46,10 @@ _AT = None
 def post_model(line):
     """evaluate the trusted transcendental tokens the model leaves symbolic"""
     global _AT
+    if line.startswith("f:"):
+        import struct
+        v = struct.unpack(">d", bytes.fromhex(line[2:]))[0]
+        return "nan" if v != v else repr(v)
     if "atan2deg(" in line:
         import re
         import adapters
